@@ -563,6 +563,17 @@ impl Check for C13 {
         "C13"
     }
 
+    fn declared_probes(&self) -> Vec<&'static str> {
+        vec![
+            "fault.adversarial-stream-words",
+            "fault.component-fail",
+            "fault.weight-sum-overflow",
+            "fault.zero-total-weight",
+            "probe.some-zero-weights-in-a-live-combination",
+            "probe.total-exactly-u32-max-accepted",
+        ]
+    }
+
     fn rule(&self) -> String {
         "marker member selectors Nth(i) (return &population[i], count invocations) inside (a) arbitrary trees whose inner nodes are the real \
          WeightedPair (left-, right-nested, balanced, random; 1-6 members), (b) the real with_item_and_weight chain (2-5 members), \
